@@ -55,7 +55,7 @@ class _MeasurementQid(ops.Qid):
         return self._qid.dimension
 
     def _comparison_key(self) -> Any:
-        return str(self._key), self._index, self._qid._comparison_key()
+        return str(self._key), self._index, self._qid._cmp_tuple()
 
     def __str__(self) -> str:
         return f"M('{self._key}[{self._index}]', q={self._qid})"
